@@ -73,9 +73,11 @@ CLAIMED = {
          "states: never-read + same type name reuses the loaded bytes, otherwise the current value is encoded under the current type "
          "name, unknown types keep their bytes. Multi-generation histories and nested unknown names: bounded stand-in."),
  "C15": ("exploration", "4.IO", "Bounded stand-in, not a proof: every string over {a,b,<,>,','} up to length 6 (quick) / 8 (thorough) plus random "
-         "perturbed names is compared with an independent recursive-descent parser. Deductively only the wrapper is proved (tokenised "
-         "with the documented expression, accepted iff exactly one root, every rejection a TypeNameError); the recursive sibling parser "
-         "is outside the verifier's reach (regular expressions, recursion over list slices)."),
+         "perturbed names is compared with an independent recursive-descent parser. Deductively proved for all inputs: the wrapper (tokenised "
+         "with the documented expression, accepted iff exactly one root, every rejection a TypeNameError) and the exception "
+         "discipline of the recursive sibling parser (for any token list it returns or raises TypeNameError - never IndexError, "
+         "ValueError or another exception; loop invariant over the bracket-matching loop, recursion by contract). That the accepted "
+         "language and the trees are exactly the grammar's is decided by the bounded stand-in only."),
  "C17": ("proof", "4.IO", "Proved for all byte strings/messages: bad magic, short file or wrong version byte is a ValueError before anything is "
          "parsed; a wrong version field is a ValueError before anything is built; every leaf reader rejects wrong-length UUIDs, dangling "
          "and ill-typed references and unknown enum numbers with the stated exception. Coherence of what load returns for corrupted "
